@@ -40,7 +40,9 @@
 (*                                                                         *)
 (* The reader contract is a machine with one action per body block: it     *)
 (* emits the item the block must be presented as.  An item is              *)
-(*   [k, lvl, ids, gaps, rows, cols, cells]                                *)
+(*   [k, lvl, mdlvl, ids, gaps, rows, cols, cells]                         *)
+(* (lvl = the authored heading level / list depth as the document model    *)
+(* must report it, mdlvl = the number of # Markdown writes: at most six)    *)
 (* ids = the tokens in source order, gaps[j] = "ws" iff a tab / break /    *)
 (* space atom (or a cell-paragraph boundary) separates token j and j+1,    *)
 (* "none" otherwise; for tables cells = anchor cells in row-major order    *)
@@ -91,7 +93,7 @@ HeadOf(sh, s) == IF Cyclic(sh, s, {}) THEN -1 ELSE Nearest(sh, s)
 SheetOK(f, sh) ==
     /\ \A i \in 1..Len(sh) :
           /\ sh[i].decl \in (IF f = "docx" THEN Decls \ {"bare"} ELSE {"none", "builtin", "bare", "outline"})
-          /\ sh[i].lvl \in 1..4
+          /\ sh[i].lvl \in 1..9
           /\ sh[i].based \in {-2, -1, 0} \cup (1..Len(sh))
     \* style ids and names are unique: a built-in heading identity occurs at most once
     /\ \A i, j \in 1..Len(sh) : (i # j /\ sh[i].decl \in {"builtin", "nameL", "nameU", "bare"}
@@ -158,9 +160,10 @@ BlockOK(f, b) ==
                                      /\ Len(b.ch[i].a) >= 1
                                      /\ \A j \in 1..Len(b.ch[i].a) : b.ch[i].a[j] \in Atoms(f)
           /\ NTok(b) >= 1                       \* no token-less paragraphs
-    /\ b.k = "H" => b.lvl \in 1..6 /\ b.how \in Hows
+    \* DOCX has nine heading levels (outline levels 0..8, Heading1..Heading9), ODT ten
+    /\ b.k = "H" => b.lvl \in 1..(IF f = "docx" THEN 9 ELSE 10) /\ b.how \in Hows
     /\ b.k = "LI" => b.lvl \in 0..8 /\ b.num \in {"bullet", "decimal"}
-    /\ b.k = "S" => b.lvl \in 1..4
+    /\ b.k = "S" => b.lvl \in 1..9
     /\ b.k # "S" => b.sty = 0
 
 \* list items: a run of items of one list starts at depth 0 and deepens by at
@@ -188,6 +191,10 @@ IsDoc(d) ==
 
 Bases(body) == [i \in 1..Len(body) |-> Sum([j \in 1..(i - 1) |-> NTok(body[j])])]
 
+\* Markdown has six heading levels: a deeper heading is written with six #; the document
+\* model keeps the authored level
+MdLvl(l) == IF l > 6 THEN 6 ELSE l
+
 \* ------------------------------------------------- the item of one block
 Item(d, i) ==
     LET b    == d.body[i]
@@ -197,7 +204,7 @@ Item(d, i) ==
     IN IF b.k = "TBL"
        THEN LET an  == Anchors(b.tb)
                 off == [q \in 1..Len(an) |-> Sum([j \in 1..(q - 1) |-> NCell(b.tb, an[j])])]
-            IN [k |-> "TBL", lvl |-> 0, ids |-> ids, gaps |-> <<>>,
+            IN [k |-> "TBL", lvl |-> 0, mdlvl |-> 0, ids |-> ids, gaps |-> <<>>,
                 rows |-> b.tb.rows, cols |-> b.tb.cols,
                 cells |-> [q \in 1..Len(an) |->
                     [r |-> an[q][1], c |-> an[q][2],
@@ -210,9 +217,10 @@ Item(d, i) ==
                      \* invalid sheet (cycle, undefined parent) leaves the result open
                      ELSE IF HeadOf(d.sheet, b.sty) = -1 THEN -1 ELSE b.lvl
             IN [k |-> IF h = -1 THEN "PH" ELSE IF h = 0 THEN "P" ELSE "H",
-                lvl |-> IF h < 1 THEN 0 ELSE h, ids |-> ids,
+                lvl |-> IF h < 1 THEN 0 ELSE h, mdlvl |-> IF h < 1 THEN 0 ELSE MdLvl(h), ids |-> ids,
                 gaps |-> GapsOf(FlatCh(b.ch)), rows |-> 0, cols |-> 0, cells |-> <<>>]
-       ELSE [k |-> b.k, lvl |-> IF b.k = "P" THEN 0 ELSE b.lvl, ids |-> ids,
+       ELSE [k |-> b.k, lvl |-> IF b.k = "P" THEN 0 ELSE b.lvl,
+             mdlvl |-> IF b.k = "H" THEN MdLvl(b.lvl) ELSE 0, ids |-> ids,
              gaps |-> GapsOf(FlatCh(b.ch)), rows |-> 0, cols |-> 0, cells |-> <<>>]
 
 \* ------------------------------------------------------------- behaviour
